@@ -27,7 +27,7 @@ ASSUMPTIONS = [
     "injected garbage is of the promptly-rejectable kind (>= one header long, wrong prefix); input that makes the client wait for a declared length is C06/C17's subject",
     "'holds an open connection' = the simulated socket was accepted and the client has not yet called close()/abort() on it nor lost it",
 ]
-PROBES = ["c07.write_error_inside_subscriber", "c07.slow_close", "c07.connect_during_slow_close", "c07.frame_then_fin", "c07.fin_at_accept", "c07.double_reset_same_instant", "c07.fault_during_reconnect", "c07.fault_at_retry_timer", "c07.unencodable_while_down",
+PROBES = ["c07.loop_passes_take_time", "c07.write_error_inside_subscriber", "c07.slow_close", "c07.connect_during_slow_close", "c07.frame_then_fin", "c07.fin_at_accept", "c07.double_reset_same_instant", "c07.fault_during_reconnect", "c07.fault_at_retry_timer", "c07.unencodable_while_down",
           "c07.raising_subscriber", "c07.api_class", "c07.probe_delivered"]
 
 
@@ -166,7 +166,15 @@ def generate(rng, index: int, tier: str) -> dict:
             # a command waits for the link; the connection comes up and the very first write on it fails: the error is met by
             # the drain inside the connect path, whose caller also falls back to a delayed (2 s) connect
             acc_l = rng.choice([0.125, 0.5, 1.0])
-            tl.append({"at": t, "op": "net.fates", "fates": [{"kind": "accept", "latency": acc_l}, {"kind": "accept", "latency": rng.choice([0.0, 0.125])}]})
+            # (the reconnect that follows the failed drain sometimes takes exactly as long as the delayed retry armed by the
+            # same failure: the new connection comes up in the instant that stale timer fires)
+            l2 = rng.choice([0.0, 0.125, 2.0, 2.0 - G.EPS, 2.0 + G.EPS])
+            if rng.random() < 0.5:
+                # loop passes take (a little) time in this run: the stale timer may then fire in the middle of what the new
+                # connection's establishment started, a few passes after it
+                knobs["iter_cost"] = 2.0**-16
+                l2 = 2.0 + rng.randint(-8, 3) * 2.0**-16
+            tl.append({"at": t, "op": "net.fates", "fates": [{"kind": "accept", "latency": acc_l}, {"kind": "accept", "latency": l2}]})
             tl.append({"at": t, "op": "net.rst"})
             tl.append({"at": t + lat + G.EPS, "op": "net.fail_write", "nth": 1, "err": rng.choice(["EPIPE", "ECONNRESET"])})
             if api:
@@ -312,6 +320,8 @@ def execute(sc: dict) -> dict:
                 break
     # --- probes
     fired = [e for e in trace.events if e[2] == "fault.fired"]
+    if sc["knobs"].get("iter_cost"):
+        probes["c07.loop_passes_take_time"] = 1
     if any(e[2] == "sub.reply_raised" for e in trace.events) or (api and any(st.get("fields", {}).get("error") for st in sc["timeline"] if st["op"] == "console.set") and fired):
         probes["c07.write_error_inside_subscriber"] = 1
     if len({e[1] for e in fired}) < len(fired):
